@@ -968,8 +968,8 @@ impl HelperAttributeForCompareOp {
             Ok(Self {
                 ignore: args.ignore,
                 reverse: args.reverse,
-                by: args.by.map(|x| x.value),
-                key: args.key.map(|x| Template::new(x.value)),
+                by: args.by.map(|x| resolve_groups(x.value)),
+                key: args.key.map(|x| Template::new(resolve_groups(x.value))),
                 bounds: Bounds::from(&args.bound),
             })
         } else {
@@ -1128,6 +1128,10 @@ impl Template {
         let this = self.apply(this);
         quote_spanned!(located_at(this.span())=> ::core::hash::Hash::hash(&(#this), __state);)
     }
+}
+fn resolve_groups(mut e: Expr) -> Expr {
+    syn::visit_mut::VisitMut::visit_expr_mut(&mut crate::syn_utils::ResolveGroups, &mut e);
+    e
 }
 /// The location of `span` with the name resolution of the rest of the generated code.
 fn located_at(span: Span) -> Span {
